@@ -594,6 +594,15 @@ func c16ForkChains(thorough bool) []c16Spec {
 						{Type: "log", Side: lp.side, Height: lp.h, Kind: "match"},
 					}
 					out = append(out, c16Spec{Name: fmt.Sprintf("L%d/F%d:reg@%s%d+%d,match@%s%d", L, F, rp.side, rp.h, ttl, lp.side, lp.h), L: L, ForkAt: F, ReorgDepth: 3, Items: items})
+					// a second matching log further up the trunk: a fired row must name a log
+					// that survives the rollback if one exists (two logs in one range, the
+					// later one abandoned or above the rollback target)
+					if lp.side == "trunk" && rp.side == "trunk" && ttl == L {
+						for h2 := lp.h + 1; h2 <= L; h2++ {
+							it4 := append(append([]c16Item{}, items...), c16Item{Type: "log", Side: "trunk", Height: h2, Kind: "match"})
+							out = append(out, c16Spec{Name: fmt.Sprintf("L%d/F%d:reg@trunk%d+%d,match@trunk%d,match@trunk%d", L, F, rp.h, ttl, lp.h, h2), L: L, ForkAt: F, ReorgDepth: 3, Items: it4})
+						}
+					}
 					// the log on both sides at the same height
 					if lp.side == "trunk" && lp.h > F {
 						it2 := append(append([]c16Item{}, items...), c16Item{Type: "log", Side: "fork", Height: lp.h, Kind: "match"})
